@@ -227,6 +227,11 @@ def jobs(tier):
           Job("otsvg_groups", job_otsvg_groups)]
     js.append(Job("colr0_layers[reused]", C06.job_colr0, which="colr0"))
     js.append(Job("glyf_components[reused]", C06.job_colr0, which="glyf"))
+    from harness import C02
+
+    for sc in C02.SCENARIOS:
+        if sc.startswith("reuse across glyphs") or sc == "reuse within glyph: black original, red copy":
+            js.append(Job(f"otsvg docs[{sc}]", C02.job_docs, scenario=sc, affine="translation"))
     return js
 
 
